@@ -20,8 +20,7 @@ LEVEL_TEXT = ('Lean 4 theorems, for all shapes/offsets/data: extent queries = se
               'model checked against the implementation on exact Gaussian-integer data, with operand snapshots (inputs byte-identical '
               'afterwards, results share no memory with operands, same call twice = same answer).')
 LEVEL_NOTE = ('Trusted: Lean kernel, py2lean subset semantics, NumPy slicing/broadcast semantics as modelled in Model/Field.lean and '
-              'Model/FieldZ.lean, generator coverage of the correspondence. Scope: a (1,1)-array member in a group whose box is the '
-              'single origin pixel makes _merge raise (NumPy); two one-element fields multiply only at equal offsets (documented '
+              'Model/FieldZ.lean, generator coverage of the correspondence. Scope: two one-element fields multiply only at equal offsets (documented '
               'rule, a scope cut of the literal statement: mul_scalar_scalar_sem_partial); insert places a one-element (1,1) field as '
               'one pixel, not as an infinite constant; 0-d data is accepted only into a 0-d target at offset (0,0) (fast path, what '
               'Wavefront.field does on a fresh wavefront) and refused with ValueError otherwise; 1-D targets are refused; the empty product is the object '
@@ -51,11 +50,11 @@ TRUSTED = ['NumPy slicing/broadcasting semantics for data[slice] * data[slice], 
 UNPROVEN = ['product of two one-element fields at DIFFERENT offsets: the code returns the empty product (documented rule of '
             'Field.__mul__), not the product of two infinite constants; mul_scalar_scalar_sem_partial proves the literal reading only '
             'for equal offsets']
-ASSUMPTIONS = ['merge/reduce raise (model: none) exactly when a group whose bounding box is the single origin pixel contains a '
-               '(1,1)-array member (mergeZ_defined_iff); collections of 0-d fields never raise (reduceZ_all0d_defined)',
+ASSUMPTIONS = ['merge/reduce never raise (mergeZ_total, reduce_defined, reduceZ_defined): on the single origin pixel the merged data '
+               'is 0-d iff every member is, else a (1,1) array (mergeZ_zero_d_iff)',
                'the product of two one-element fields follows the documented rule: empty unless the offsets are equal',
-               'reduce_disjoint / reduce_total (and the 0-d aware reduceZ_*): input fields of positive shape and every element of '
-               'the model result is a field; the fields of a merged group occupy boundary() of the group, which reaches up to '
+               'reduce_spec / reduceZ_spec: input fields of positive shape, nothing else (reduce_disjoint / reduce_total keep the '
+               'hypothesis reduce fs = out.map some for their users; it is always satisfiable: reduce_defined); the fields of a merged group occupy boundary() of the group, which reaches up to '
                'row/column 0 even for wholly negative members (boundary_is_bbox_general states this caveat; boundary_is_bbox is the '
                'exact bounding box when some member reaches row >= 0 and column >= 0)',
                'insert_emb uses the one-pixel embedding (emb), not the infinite-constant reading (sem), for a one-element (1,1) '
@@ -118,7 +117,7 @@ def generate(rng, tier):
         elif t in (4, 5):
             r = int(rng.integers(0, 10))
             if r <= 1: fs = _spanning(rng, int(rng.integers(2, 5)))           # first field spans the whole box / identical extents
-            elif r == 2: fs = _origin_ones(rng, int(rng.integers(1, 4)))      # one-element fields at the origin (0-d and (1,1))
+            elif r in (2, 3): fs = _origin_ones(rng, int(rng.integers(1, 5)))  # one-element fields at the origin (0-d and/or (1,1))
             else:
                 m = int(rng.integers(2, 5))
                 fs = [_field(rng, allow_one=(rng.integers(0, 3) == 0), omax=4, zero_d=True) for _ in range(m)]
@@ -136,8 +135,8 @@ def generate(rng, tier):
             if r <= 1:                                                        # a spanning group plus bystanders
                 fs = _spanning(rng, int(rng.integers(2, 4))) + [_field(rng, kmax=3, omax=9) for _ in range(int(rng.integers(0, 3)))]
                 if rng.integers(0, 2): fs = [fs[-1]] + fs[:-1]
-            elif r == 2:                                                      # one-element fields at the origin among others
-                fs = _origin_ones(rng, int(rng.integers(1, 4))) + [_field(rng, kmax=3, omax=om, zero_d=True) for _ in range(int(rng.integers(0, 3)))]
+            elif r in (2, 3):                                                 # one-element fields at the origin among others
+                fs = _origin_ones(rng, int(rng.integers(1, 5))) + [_field(rng, kmax=3, omax=om, zero_d=True) for _ in range(int(rng.integers(0, 3)))]
                 fs = [fs[i] for i in rng.permutation(len(fs))]
             else:
                 fs = [_field(rng, kmax=4, omax=om, allow_one=(rng.integers(0, 3) == 0), zero_d=True) for _ in range(m)]
@@ -271,12 +270,15 @@ def _spanning(rng, m):
     return fs
 
 def _origin_ones(rng, m):
-    """m one-element fields at offset (0, 0): 0-d data (what Wavefront.__init__ creates) and, sometimes, (1, 1) arrays"""
+    """m one-element fields at offset (0, 0): all 0-d (what Wavefront.__init__ creates), all (1, 1) arrays (what
+    propagate_dft(prop_shape=1) of a segmented pupil creates), or a mix"""
     fs = []
     for _ in range(m):
         f = gi_field(rng, (1, 1), (0, 0))
-        if rng.integers(0, 4): f['shape'] = []
         fs.append(f)
+    mode = int(rng.integers(0, 3))            # all 0-d / all (1,1) arrays / a mix
+    for f in fs:
+        if mode == 0 or (mode == 2 and rng.integers(0, 2)): f['shape'] = []
     return fs
 
 def _axis_pos(rng, n, t0, t1, how):
@@ -426,7 +428,9 @@ def tags(c):
     if k in ('merge', 'reduce', 'merge_public', 'overlap'):
         fs = c['fields']; es = [ext_of(f['shape'], f['off']) for f in fs]
         if any(len(f['shape']) < 2 for f in fs): t.append(k + ':has-0d')
-        if sum(e == (0, 0, 0, 0) for e in es) >= 2: t.append(k + ':origin-ones>=2')
+        if sum(e == (0, 0, 0, 0) for e in es) >= 2:
+            t.append(k + ':origin-ones>=2')
+            if sum(e == (0, 0, 0, 0) and not _is0d(f) for e, f in zip(es, fs)) >= 1: t.append(k + ':origin-1x1-array')
         if len(fs) > 1:
             box = (min(e[0] for e in es), max(0, max(e[1] for e in es)), min(e[2] for e in es), max(0, max(e[3] for e in es)))
             if es[0] == box: t.append(k + ':first-spans-box')
@@ -694,10 +698,6 @@ def _ref_groups(es):
         else:
             return gs
 
-def _origin_refusal(fs):
-    """documented scope: _merge of a group whose box is the single origin pixel raises iff some member is a (1,1) array"""
-    return all(ext_of(f['shape'], f['off']) == (0, 0, 0, 0) for f in fs) and any(not _is0d(f) for f in fs)
-
 def _val(f): return complex(np_data(f).ravel()[0])
 
 def _mk(shape, off, arr):
@@ -739,11 +739,7 @@ def _oracle_chain(c, io):
         want = None if p is None else [p] + cs
     else:
         want = ([p] if p is not None else []) + cs
-    if 'exc' in io:
-        grp = want or []
-        org = [f for f in grp if ext_of(f['shape'], f['off']) == (0, 0, 0, 0)]
-        if nxt in ('merge', 'reduce') and len(org) >= 2 and _origin_refusal(org) and (nxt == 'reduce' or len(org) == len(grp)): return None   # documented scope
-        return f"chain product->{nxt} raised {io['exc']}: {io.get('msg')}"
+    if 'exc' in io: return f"chain product->{nxt} raised {io['exc']}: {io.get('msg')}"
     if want is None: return None if io['fields'] == [] else 'empty product was not dropped'
     box = box_of([want, io['fields'], [c['a'], c['b']]])
     if not np.array_equal(canvas(io['fields'], box), canvas(want, box)): return f'product->{nxt}: result is not the {"product" if nxt == "mul" else "sum"} of the embeddings'
@@ -843,15 +839,13 @@ def oracle(c, io):
                 return None if io.get('exc') == 'ValueError' else 'merge of fields with different pixelscale was not refused'
             if c['enforce'] and not _overlap(es[0], es[1]):
                 return None if io.get('exc') == 'ValueError' else 'merge(enforce_overlap=True) of non-overlapping fields was not refused'
-        if 'exc' in io:
-            if k == 'reduce':
-                org = [f for f in fs if ext_of(f['shape'], f['off']) == (0, 0, 0, 0)]
-                if len(org) >= 2 and _origin_refusal(org): return None          # documented scope
-            elif _origin_refusal(fs): return None                               # documented scope
-            return f"{k} raised {io['exc']}: {io.get('msg')}"
+        if 'exc' in io: return f"{k} raised {io['exc']}: {io.get('msg')}"     # _merge never refuses (also (1,1) arrays at the origin)
         box = box_of([fs, io['fields']])
         if not np.array_equal(canvas(io['fields'], box), canvas(fs, box)): return f'{k} changed the total field'
         if k == 'merge_public' and io.get('pixelscale') != [(c.get('ps') or [None])[0]]: return 'merge lost the pixelscale'
+        if k in ('merge', 'merge_public') and len(io['fields']) == 1:
+            want0d = all(e == (0, 0, 0, 0) for e in es) and all(_is0d(f) for f in fs)
+            if _is0d(io['fields'][0]) != want0d: return f"merged data is {'0-d' if _is0d(io['fields'][0]) else 'an array'}; it must be 0-d exactly when every member is 0-d on the origin pixel"
         if k == 'reduce':
             for x, y in itertools.combinations(io['extents'], 2):
                 if _overlap(x, y): return f'reduced fields overlap: {x} {y}'
